@@ -1,6 +1,6 @@
 """C17 (grouped decimal rendering): XalanNumberFormat::applyGrouping writes every digit of the number exactly once, right to left, with the
 separator between complete groups of grouping-size digits only: never in front of the first digit, never inside a group; nothing is written
-outside the scratch buffer and the result starts at the last character written.  BOUNDED stand-in: strings of at most 24 units (a 64-bit integer has at most 20 digits), grouping sizes 1, 2, 3, 4 and 30,
+outside the scratch buffer and the result starts at the last character written.  BOUNDED stand-in: strings of at most 24 units (a 64-bit integer has at most 20 digits), grouping sizes 0 (no grouping), 1, 2, 3, 4 and 30,
 one-character separator (ElemNumber rejects any other length).  The stubs are plain C model functions here (no contract instrumentation: DFCC plus unwinding ran out of memory). An unbounded loop-contract version needs seps * size + fill == i and
 len / size reasoning (non-linear) and did not finish in 15 minutes on any back end."""
 from xvlib.unit import Fn, Job, Unit, Mutant
@@ -68,8 +68,8 @@ UNIT = Unit(
            contract=''),
     ],
     template=TEMPLATE,
-    jobs=[Job('applyGrouping_gs%d' % k, 'h_applyGrouping', dfcc=False, cls='B', unwind=26, reach='all', timeout=1500, min_obligations=8, defines=('XV_GS=%d' % k,), thorough_only=(k in (2, 4)),
-              bound_note='digit strings of at most 24 units, grouping size %d, separator of one unit' % k) for k in (1, 2, 3, 4, 30)],
+    jobs=[Job('applyGrouping_gs%d' % k, 'h_applyGrouping', dfcc=False, cls='B', unwind=26, reach=('all' if k else ['entry:applyGrouping']), timeout=1500, min_obligations=8, defines=('XV_GS=%d' % k,), thorough_only=(k in (2, 4)),
+              bound_note='digit strings of at most 24 units, grouping size %d, separator of one unit' % k) for k in (0, 1, 2, 3, 4, 30)],
     mutants=[
         Mutant('separator_after_complete_group', NF, r'const XalanDOMChar      c = value\[ix\];\s*if \(i && !\(i% m_groupingSize\)\)(\s*\{.*?\})\s*\*p-- = c;', r'*p-- = value[ix];\n\n                if (!((i + 1) % m_groupingSize))\1', expect=None),
         Mutant('group_one_too_long', NF, r'if \(i && !\(i% m_groupingSize\)\)', 'if (i > 1 && !((i - 1) % m_groupingSize))', expect=None),
